@@ -7,7 +7,8 @@ import re
 from ..engine import rule
 from ..cxx_ir import CALL_KINDS, CTOR_KINDS
 from ..cfg import cfg_of, const_eval
-from .common import (short, inst, live_funcs, calls_in, callee_func, member_path, local_inits,
+from ..cxx_ir import LOOP_KINDS
+from .common import (short, inst, live_funcs, calls_in, callee_func, member_path, local_inits, strip_casts,
                      enclosing_map, ancestors, assignments_to)
 from .equality import NODE_REC, SPEC_REC, node_fields, tokens, fields_read, _base_is
 
@@ -366,6 +367,89 @@ def a3(ctx):
                   'Node::%s (%s) holds a Python object but PyTreeSpec::PyTpTraverse does not '
                   'visit it: reference cycles through it are never collected' % (name, typ),
                   tv.loc)
+    # ... for every node kind that can carry the field: the only way round a visit is the field
+    # being null.  Which kinds can carry a field is read off the producers (every assignment to
+    # Node::<field>, with the kinds under which the assignment is reachable).
+    from ..descriptors import kind_edge_filter
+    from .common import ALL_KINDS
+    may = {n: set() for n, _ in objs}
+    nsites = 0
+    for g in live_funcs(prog):
+        if g.body is None:
+            continue
+        sites = []
+        for a in g.body.walk():
+            lhs = None
+            if a.kind == 'BinaryOperator' and a.op == '=':
+                lhs = a.kids[0]
+            elif a.kind == 'CXXOperatorCallExpr' and a.callee_name() == 'operator=' and len(a.kids) >= 3:
+                lhs = a.kids[1]
+            lhs = strip_casts(lhs) if lhs is not None else None
+            if lhs is not None and lhs.kind == 'MemberExpr' and lhs.name in may and _base_is(lhs, 'Node'):
+                sites.append((a, lhs))
+        if not sites:
+            continue
+        gcfg = cfg_of(g)
+        for a, lhs in sites:
+            base = member_path(lhs.kids[0]) if lhs.kids else None
+            cn = gcfg.cnode_of(a)
+            if base is None or cn is None:
+                continue
+            nsites += 1
+            for k in ALL_KINDS:
+                if cn in gcfg.reachable_from([gcfg.entry.idx], kind_edge_filter(gcfg, k, base + '.kind')):
+                    may[lhs.name].add(k)
+    ctx.require(nsites >= 10, 'only %d assignments to Node payload fields found' % nsites)
+    ctx.analysed['kinds_that_can_carry'] = {n: sorted(v) for n, v in may.items()}
+    cfg = cfg_of(tv)
+    parent = enclosing_map(tv.body)
+
+    def fields_in(a):
+        return {m.name for m in a.walk() if m.kind == 'MemberExpr' and m.name in node_fields(prog)
+                and _base_is(m, 'Node')}
+    for name, typ in objs:
+        vnodes = set()
+        loops = []
+        subject = None
+        for c in calls_in(tv.body, {'visit'}):
+            if name in fields_in(c):
+                vnodes.add(cfg.cnode_of(c))
+                ls = [a for a in ancestors(c, parent) if a.kind in LOOP_KINDS]
+                if ls:
+                    loops.append(ls[-1])
+                for m in c.walk():
+                    if m.kind == 'MemberExpr' and m.name == name and m.kids:
+                        subject = member_path(m.kids[0])
+        if not vnodes or not loops or subject is None:
+            continue
+        body = loops[0].kids[-1]
+        first = [cfg.cnode_of(x) for x in body.walk() if cfg.cnode_of(x) is not None]
+        ctx.require(first, 'PyTpTraverse: loop body has no CFG nodes')
+        entry = min(first)
+        inside = set(first)
+        cands = {w for (v, w) in cfg.back_edges if v in inside}
+        heads = {w for w in cands if all(cfg.dominates(w, x) for x in cands)}   # the outer loop's head
+        ctx.require(heads, 'PyTpTraverse: loop head not found')
+        bad = []
+        for k in sorted(may[name]):
+            kf = kind_edge_filter(cfg, k, subject + '.kind')
+
+            def skip(v, w, lab, name=name, kf=kf):
+                if kf(v, w, lab):
+                    return True
+                cn = cfg.nodes[v]
+                # the null test of the visited field itself (Py_VISIT's `if (op)`)
+                return cn.kind == 'cond' and lab is False and cn.ast is not None and \
+                    fields_in(cn.ast) == {name} and not any(x.kind == 'BinaryOperator' for x in cn.ast.walk())
+            reach = cfg.reachable_from([entry], skip, vnodes | heads)
+            if any(w in heads for v in reach for (w, lab) in cfg.succ[v] if not skip(v, w, lab)):
+                bad.append(k)
+        ctx.check('PyTreeSpec::PyTpTraverse/%s/every-kind' % name, not bad,
+                  'Node::%s is visited for every node kind that can carry it (%s); only a null '
+                  'field is skipped' % (name, ', '.join(sorted(may[name]))),
+                  'Node::%s is not visited for nodes of kind %s, which store a Python object there: '
+                  'reference cycles through the metadata of such nodes are never collected'
+                  % (name, ', '.join(bad)), tv.loc)
     # fields must be owning types, never py::handle (A4)
     for recname in (NODE_REC, 'optree::PyTreeTypeRegistry::Registration'):
         rec = prog.records.get(recname)
